@@ -1,3 +1,4 @@
+import ButlerModel.Model.RegCache
 import ButlerModel.Model.Cache
 /-! # C17 — the file cache stays within its configured bounds, and its bookkeeping is exact
 
@@ -376,3 +377,63 @@ example : (expire .files 1 100 [⟨1, 1, 10, 5⟩, ⟨2, 2, 20, 3⟩] { entries 
 example : RegOK { entries := [⟨1, 1, 10, 5⟩, ⟨2, 2, 20, 3⟩], size := 30 } := by unfold RegOK sumSizes; decide
 
 end C17
+
+/-! ## Registry caches inside a caching context (model `RegCache`) -/
+namespace C17.Reg
+open RegCache
+
+theorem coherent_init : Coherent {} := fun _ => Or.inl rfl
+
+/-- **Every operation keeps the caches coherent with the database** (code as repaired). -/
+theorem coherent_step (s : S) (op : Op) (h : Coherent s) : Coherent (step true true s op).1 := by
+  cases op with
+  | enter => exact h
+  | exit => intro k; exact Or.inl rfl
+  | rollback snap => intro k; exact Or.inl rfl
+  | write k v =>
+    intro q
+    simp only [step, ↓reduceIte, upd]
+    by_cases hq : q = k
+    · simp [hq]
+    · simp only [hq, ↓reduceIte]; exact h q
+  | read k =>
+    simp only [step]
+    cases hc : s.cache k with
+    | some v => simpa [hc] using h
+    | none =>
+      by_cases hx : s.ctx = true
+      · simp only [hx, ↓reduceIte]
+        intro q
+        simp only [upd]
+        by_cases hq : q = k
+        · simp [hq]
+        · simp only [hq, ↓reduceIte]; exact h q
+      · simp only [hx, Bool.false_eq_true, ↓reduceIte]; exact h
+
+theorem coherent_run (ops : List Op) (s : S) (h : Coherent s) : Coherent (run true true s ops) := by
+  induction ops generalizing s with
+  | nil => exact h
+  | cons op ops ih => exact ih _ (coherent_step s op h)
+
+/-- **A cached client gets the database's answer**: after any history of context entries and exits,
+writes, reads and rolled-back transactions, a read returns exactly what the database holds — the
+client always sees its own completed writes, and never a rolled-back or stale value. -/
+theorem read_returns_db (ops : List Op) (k : Nat) :
+    (step true true (run true true {} ops) (.read k)).2 = (run true true {} ops).db k := by
+  have h := coherent_run ops {} coherent_init k
+  simp only [step]
+  rcases h with h | h
+  · simp only [h]; split <;> rfl
+  · simp [h]
+
+/-- Regression witness of the earlier code (C17-b): the summary cached before the client's own write
+hid that write. -/
+theorem old_code_hides_own_write :
+    (step false true (run false true {} [.enter, .read 1, .write 1 7]) (.read 1)).2 = 0 ∧
+    (run false true {} [.enter, .read 1, .write 1 7]).db 1 = 7 := by decide
+
+/-- Regression witness of C07-d: a value cached inside a transaction that was then rolled back. -/
+theorem old_code_keeps_rolled_back_value :
+    (step true false (run true false {} [.enter, .write 1 7, .read 1, .rollback (fun _ => 0)]) (.read 1)).2 = 7 := by decide
+
+end C17.Reg
